@@ -18,3 +18,14 @@ const (
 	cr = '\r'
 	lf = '\n'
 )
+
+const (
+	// maxBulkLength is the maximum length of a bulk string (512MB as Redis).
+	maxBulkLength = 512 * 1024 * 1024
+	// maxArraySize is the maximum number of elements in an array (1M as Redis).
+	maxArraySize = 1024 * 1024
+	// readBufferSize is the initial buffer size to read a bulk string.
+	readBufferSize = 64 * 1024
+	// initialArrayCapacity is the initial capacity to read an array.
+	initialArrayCapacity = 1024
+)
